@@ -47,6 +47,24 @@ SpGenericEnc(h, sec, data) ==
                        \o (IF Has(data) THEN Get(data) ELSE <<>>), 0)
 
 (***************************************************************************)
+(* Stream scanning: the reference behaviour of one parser call (used by    *)
+(* SpParser.tla and Link.tla).                                             *)
+(***************************************************************************)
+Concat(q) == FoldLeft(LAMBDA acc, c : acc \o c, <<>>, q)
+
+(* Reference behaviour of one parser call on the concatenated buffer b,    *)
+(* starting at 1-based index i.                                            *)
+RECURSIVE Scan(_, _, _, _)
+Scan(b, i, out, ids) ==
+  IF i + 5 > Len(b) THEN [out |-> out, rest |-> SubSeq(b, i, Len(b))]       \* < 6 octets left: keep them
+  ELSE IF SpId13(b, i) \in ids
+       THEN LET n == b[i + 4] * 256 + b[i + 5] + 7
+            IN IF i + n - 1 > Len(b) THEN [out |-> out, rest |-> SubSeq(b, i, Len(b))]   \* incomplete: keep tail
+               ELSE Scan(b, i + n, Append(out, SubSeq(b, i, i + n - 1)), ids)
+       ELSE Scan(b, i + 1, out, ids)                                          \* not a registered ID: skip octet
+
+
+(***************************************************************************)
 (* Expected observations (shared by both conformance directions).          *)
 (***************************************************************************)
 SpOps == {"sph.build", "sph.unpack", "pid.from_raw", "psc.from_raw", "sp.apid_raw", "sp.pack"}
